@@ -29,6 +29,7 @@ ZeroInto(R0, n) == [m |-> 0, n |-> n, a |-> <<>>]
 \* rank over the fraction field: integers by elimination, F_p by elimination mod p, otherwise (Q with fractions, Z[H], ...) by minors
 RankC(A) == CASE R.k \in {"I", "Z"} -> RankZ(IntRows(R, A))
               [] R.k = "F" -> RankP(IntRows(R, A), R.p)
+              [] R.k = "Q" -> RankZ(QRowsScaled(A))
               [] OTHER -> RankByMinors(R, A)
 \* homology of the complex with differentials m at degree i (lo <= i <= hi+1): (rank, torsion) as far as the ring allows
 HomAt(m, i) ==
